@@ -15,12 +15,12 @@ CHECKS = {
    note="Trusted: the harness's Scheme reader/evaluator and LiPE runtime model (assumptions listed in the evidence file), the find-semantics evaluator, fnmatch implementation.",
    technique="proptest-generated programs, differential execution against a reference evaluator (translation validation)"),
  "C03": dict(
-   text="Totality search over ~1.5 M (quick) structured inputs per build profile (incl. long words with multi-byte characters at power-of-two byte offsets, expressions with > 127 distinct matchers, five further renderings after a hostile one): grammar-aware texts, all prefixes and single-character mutations, exhaustive short argument strings after every keyword, numeric boundaries; every stage (parse, error Display/Debug, compile, scheme, io_map) must return; run in child processes of the dev and the release harness so aborts are contained. Thorough adds libFuzzer campaigns.",
+   text="Totality search over ~1.5 M (quick) structured inputs per build profile (incl. long words with multi-byte characters at power-of-two byte offsets, expressions with > 127 distinct matchers, five further renderings after a hostile one): grammar-aware texts, all prefixes and single-character mutations, exhaustive short argument strings after every keyword, numeric boundaries, groups with an operator at every nesting level up to the bound, every code point of the basic plane as an argument, bracket arrangements; every stage (parse, error Display/Debug, compile, scheme, io_map) must return; run in child processes of the dev and the release harness so aborts are contained. Thorough adds libFuzzer campaigns.",
    ref="DESIGN.md section 4, C03 and 3.7",
-   note="A hang would be reported as inconclusive (exit 2), not as a violation; nesting beyond 64 and inputs beyond 4 KiB are outside the property.",
+   note="An input that has no answer after 20 s of CPU time of its process (inputs of the corpus take at most ~0.2 s) is reported as a failure to terminate, after confirmation in a process of its own; expiry of the watchdog of the whole run is inconclusive (exit 2). Nesting beyond 64 and inputs beyond 4 KiB are outside the property.",
    technique="structured generation + mutation + exhaustive short strings, crash oracle in child processes, both build profiles"),
  "C04": dict(
-   text="Every string-carrying construct (39 carriers: tests and actions, plain and framed mode, short and > 1000-byte policy bodies, format literals, octal-escaped characters, strftime selectors, the device path) x every string of length <= 3 (quick) / 4 (thorough) over an 18-symbol hostile alphabet, plus long strings with multi-byte characters at power-of-two offsets, a dictionary of tokens extracted from the code generator's own sources, all 512 octal escapes and random strings: the emitted program must read as exactly two forms, have the same structure as the program for the neutralised string, carry the string as a literal decoding to exactly it, and print literal format text verbatim when executed.",
+   text="Every string-carrying construct (39 carriers: tests and actions, plain and framed mode, short and > 1000-byte policy bodies, format literals, octal-escaped characters, strftime selectors, the device path) x every string of length <= 3 (quick) / 4 (thorough) over an 18-symbol hostile alphabet, plus long strings with multi-byte characters at power-of-two offsets, a dictionary of tokens extracted from the code generator's own sources, all 512 octal escapes and random strings, and whole trees (interaction triples, requests a concatenated key would confuse, random trees with dictionary strings) against their neutral twin: the emitted program must read as exactly two forms, have the same structure as the program for the neutralised string, carry the string as a literal decoding to exactly it, and print literal format text verbatim when executed.",
    ref="DESIGN.md section 4, C04",
    note="Trusted: the harness's reader for Guile string/char syntax (strict on unknown escapes). No Guile in the sandbox to cross-check.",
    technique="exhaustive short strings + random strings, non-interference (metamorphic) oracle through an independent reader, behavioural check"),
@@ -30,17 +30,17 @@ CHECKS = {
    note="The vocabulary table keyword -> node is written from find(1) and ast.rs doc comments; glued punctuation is not asserted.",
    technique="table-driven generation of members and corrupted non-members, oracle = specification-side vocabulary table"),
  "C06": dict(
-   text="Metamorphic check: random expressions over the whole vocabulary are printed canonically and through a variant grammar (blank kinds, AND/OR spellings, redundant parentheses, quoting styles); every variant must give the same options and tree; blank inputs mean -true.",
+   text="Metamorphic check: random expressions over the whole vocabulary are printed canonically and through a variant grammar (blank kinds, AND/OR spellings, redundant parentheses, quoting styles); every variant must give the same options and tree; blank inputs mean -true. Interaction triples (three leaf kinds x operator skeletons) in layout variants; replay of the corpus of the structure-aware libFuzzer target `spell` (quick) and a campaign of it (thorough) with the same oracle inside the target.",
    ref="DESIGN.md section 4, C06",
    note="Quoting is varied only on word-or-quoted-string arguments.",
-   technique="proptest generation of spelling variants, metamorphic relation"),
+   technique="proptest generation of spelling variants + coverage-guided fuzzing (structure-aware target), metamorphic relation"),
  "C07": dict(
-   text="Every numeric carrier x boundary-directed and random decimal strings (leading zeros, signs, up to 40 digits): in range -> exact value in the tree and in the emitted constant (after unit multiplication), out of range -> rejected with an error value; both build profiles.",
+   text="Every numeric carrier x boundary-directed and random decimal strings (leading zeros, signs, up to 40 digits): in range -> exact value in the tree and in the emitted constant (after unit multiplication), out of range -> rejected with an error value; pairs of numeric primaries of one attribute side by side (ranges in mixed units, empty or crossing) keep both exact constants in order; both build profiles.",
    ref="DESIGN.md section 4, C07",
    note="Oracle is big-integer arithmetic on the text (u128 / digit strings).",
    technique="boundary-value + random generation, arithmetic oracle on the text, independent reader for emitted constants, both build profiles"),
  "C08": dict(
-   text="All 4096 octal values, all 315 clauses and all 99,225 ordered clause pairs (exhaustive), random longer lists, under the three prefixes: the tree must carry the mode of a chmod model and the executed policy must implement equal / all-bits / any-bit on directed mode sets.",
+   text="All 4096 octal values, all 315 clauses and all 99,225 ordered clause pairs (exhaustive), random longer lists and lists of up to 1000 clauses, under the three prefixes: the tree must carry the mode of a chmod model and the executed policy must implement equal / all-bits / any-bit on directed mode sets.",
    ref="DESIGN.md section 4, C08",
    note="Known finding F12 ('-' clauses) is excluded by a signature predicate and reported as KNOWN-FINDING.",
    technique="exhaustive enumeration + random lists, reference model (chmod), differential execution of the emitted policy"),
@@ -65,10 +65,10 @@ CHECKS = {
    note="Support partition written from ast.rs.",
    technique="proptest-generated trees, oracle = specification-side support partition + structural invariant"),
  "C13": dict(
-   text="Random expressions with options in a leading run and at random positions inside: options model (any -depth, last -threads), expected tree with options as -true, no option node, thread count in the emitted scan call; -maxdepth/-mindepth rejected or reflected.",
+   text="Random expressions with options in a leading run and at random positions inside: options model (any -depth, last -threads), expected tree with options as -true, no option node, thread count in the emitted scan call; -maxdepth/-mindepth rejected or reflected. Interaction triples with options among the leaf kinds; corpus replay (quick) and campaign (thorough) of the structure-aware libFuzzer target `spell` with the same oracle inside the target.",
    ref="DESIGN.md section 4, C13",
    note="An expression starting with an option word is part of the leading run by definition.",
-   technique="proptest generation, reference model of option handling"),
+   technique="proptest generation + coverage-guided fuzzing (structure-aware target), reference model of option handling"),
  "C14": dict(
    text="Every string up to length 5 (quick) / 6 (thorough) over a 17-symbol alphabet, every documented directive/escape alone, embedded and pairwise, random strings to length 60: the returned element list must equal the segmentation of an independent scanner, or be an error for an undocumented directive.",
    ref="DESIGN.md section 4, C14 and appendix B",
